@@ -352,7 +352,7 @@ TIERS = {
                  dict(prefix=2, detail="core", tail=0, pairs=1, opdepth=0, variants=2, frag=0)],
 }
 
-def run(prop, tier, seed):
+def run_bytes(prop, tier, seed):
     out = checklib.Outcome()
     out.level = "exploration"
     wd = vbuild.scratch(f"vf_{prop}_")
@@ -556,3 +556,48 @@ def run(prop, tier, seed):
     finally:
         if os.environ.get("VERIF_KEEP_SCRATCH") != "1":
             shutil.rmtree(wd, ignore_errors=True)
+
+
+# ------------------------------------------------------------------ (6) request SEQUENCES (added at integration)
+# The class paths above are at most a few frames long.  Crashes that need a multi-step well-formed history (a particular
+# sequence of LOCK / UNLOCK frames, timers in between) are explored with the sequential engine of the lock family: every
+# request it issues is a valid 64-byte frame, a panic of the real code is recorded as an event and judged by the TLA+
+# trace spec spec/mon/MonCrash.tla.
+
+def run(prop, tier, seed):
+    out = run_bytes(prop, tier, seed)
+    import gen_core, shutil
+    wd = vbuild.scratch(f"vf_{prop}_seq_")
+    try:
+        quick = tier == "quick"
+        scs = [gen_core.gen_scenario(seed + 1000, i) for i in range(270 if quick else 4000)] + [gen_core.gen_big(seed + 1000, i) for i in range(14 if quick else 140)]
+        binp = vbuild.build_inpkg("server", wd)
+        res = engine.run_harness(binp, "TestVerifS", scs, os.path.join(wd, "run"))
+        traces = []
+        for fin, fout, p in res:
+            if p is not None:
+                raise InfraError(f"engine S died on {fin}:\n" + (p.stdout or "")[-2000:] + (p.stderr or "")[-2000:])
+            traces.append(fout)
+        viols, mst = engine.monitor_traces("MonCrash", traces, [prop], os.path.join(wd, "mon"))
+        byname = {sc["name"]: sc for sc in scs}
+        for v in viols:
+            out.viols.append((v, byname.get(v.get("name"))))
+        # self-test: a panic event appended to an accepted history must be reported
+        st = {"rejected": None}
+        if traces:
+            lines = open(traces[0]).read().splitlines()
+            i = next((k for k, x in enumerate(lines) if '"e":"req"' in x), None)
+            if i is not None:
+                lines.insert(i + 1, json.dumps({"e": "panic", "msg": "selftest", "site": "selftest", "op": "lock", "t": 0}))
+                pth = os.path.join(wd, "selftest.ndjson")
+                open(pth, "w").write("\n".join(lines) + "\n")
+                v2, _ = engine.monitor_traces("MonCrash", [pth], [prop], os.path.join(wd, "selftest"))
+                st = {"corruption": "a panic event inserted after the first request", "rejected": len(v2) > 0}
+                if not st["rejected"]:
+                    raise InfraError("self-test failed: MonCrash accepted an inserted panic event")
+        out.coverage["request_sequences"] = {"histories": len(scs), "events": mst["events"], "monitor": "spec/mon/MonCrash.tla", "selftest": st,
+                                             "rule": "lock-family histories (wide-range + big populations) of well-formed LOCK/UNLOCK requests with virtual-clock sweeps; a panic of the real code is a C13 violation"}
+        out.coverage["evaluations"] = out.coverage.get("evaluations", 0) + len(scs)
+        return out
+    finally:
+        shutil.rmtree(wd, ignore_errors=True)
